@@ -564,12 +564,20 @@ func (s *stubServer) onFrame(c *stubConn, f []byte) {
 		c.monitors = append(c.monitors, m)
 		var res any = tu
 		if msg.Method == "monitor_cond_since" {
-			res = []any{false, zeroUUID, tu}
+			// found=false: complete contents, and the id of the latest transaction in them
+			res = []any{false, s.txnID(len(s.history)), tu}
+			if len(s.history) == 0 {
+				res = []any{false, zeroUUID, tu}
+			}
 			s.sent["found_false"]++
 			var last string
 			if s.remember && len(msg.Params) >= 4 && json.Unmarshal(msg.Params[3], &last) == nil {
+				forget := s.r.Intn(5) == 0 // a server may have discarded that part of its history
+				if forget {
+					s.sent["forgot_known_id"]++
+				}
 				for k := range s.history {
-					if s.txnID(k+1) == last {
+					if s.txnID(k+1) == last && !forget {
 						// the id is known: answer with the changes since, and nothing else
 						res = []any{true, s.txnID(len(s.history)), s.delta(m, s.history[k], s.state)}
 						s.sent["found_true"]++
@@ -650,6 +658,13 @@ func (s *stubServer) mutateState() {
 			var cookie any
 			_ = json.Unmarshal(m.cookie, &cookie)
 			var body any = s.maybeCorrupt(tu, s.pNotif, "notification")
+			if s.pNotif > 0 && s.r.Intn(12) == 0 {
+				// a well-formed cookie the client does not know (a monitor it gave up on)
+				if cm, ok := cookie.(map[string]any); ok {
+					cm["id"] = fmt.Sprintf("00000000-c00c-4000-8000-%012d", s.r.Intn(1000))
+					s.sent["unknown_cookie"]++
+				}
+			}
 			switch m.method {
 			case "monitor":
 				s.send(c, map[string]any{"method": "update", "params": []any{cookie, body}, "id": nil})
